@@ -323,6 +323,7 @@ func c01Run(c *fw.Ctx, tree *enode, tier string) {
 		text := tree.print(st)
 		texts = append(texts, text)
 		calc := calculator.NewExpressionCalculator()
+		calc.SetAutoVariables(true)
 		var err error
 		pv := fw.Try(func() { err = calc.SetExpression(text) })
 		c.Eval(1)
